@@ -82,6 +82,9 @@ pub enum FileCase {
     Read { size: u64, a: u64, b: u64, cap: usize, trunc: Option<(u32, u64)>, via_serve: bool },
     Meta { size: u64 },
     NonRegular,
+    /// a sparse file of `size` bytes (zeros with a marker byte every 1 MiB - 1): long streams of
+    /// many consecutive full reads
+    BigSparse { size: u64, a: u64, b: u64 },
 }
 
 impl FileCase {
@@ -90,6 +93,7 @@ impl FileCase {
             FileCase::Read { size, a, b, cap, trunc, via_serve } => json!({"read": {"size": size, "a": a, "b": b, "cap": cap, "trunc": trunc.map(|t| json!([t.0, t.1])), "via_serve": via_serve}}),
             FileCase::Meta { size } => json!({"meta": {"size": size}}),
             FileCase::NonRegular => json!("non_regular"),
+            FileCase::BigSparse { size, a, b } => json!({"big_sparse": {"size": size, "a": a, "b": b}}),
         }
     }
     pub fn from_json(v: &Value) -> FileCase {
@@ -102,6 +106,8 @@ impl FileCase {
                 trunc: r["trunc"].as_array().map(|t| (t[0].as_u64().unwrap_or(0) as u32, t[1].as_u64().unwrap_or(0))),
                 via_serve: r["via_serve"].as_bool().unwrap_or(false),
             }
+        } else if let Some(m) = v.get("big_sparse") {
+            FileCase::BigSparse { size: m["size"].as_u64().unwrap_or(0), a: m["a"].as_u64().unwrap_or(0), b: m["b"].as_u64().unwrap_or(0) }
         } else if let Some(m) = v.get("meta") {
             FileCase::Meta { size: m["size"].as_u64().unwrap_or(0) }
         } else {
@@ -269,6 +275,89 @@ fn run_read(size: u64, a: u64, b: u64, cap: usize, trunc: Option<(u32, u64)>, vi
     (Verdict::Ok, Some(hash64(&case)), desc)
 }
 
+const MARK_EVERY: u64 = (1 << 20) - 1;
+
+fn run_big_sparse(size: u64, a: u64, b: u64, sink: &mut Sink) -> (Verdict, Option<u64>, Value) {
+    use std::os::unix::fs::FileExt;
+    let case = FileCase::BigSparse { size, a, b };
+    let desc = case.to_json();
+    let dir = TempDir::new("c18s");
+    let path = dir.0.join("sparse");
+    {
+        let f = File::create(&path).expect("create");
+        f.set_len(size).expect("set_len");
+        let mut off = MARK_EVERY;
+        while off < size {
+            f.write_at(&[(off / MARK_EVERY) as u8 | 1], off).expect("marker");
+            off += MARK_EVERY;
+        }
+    }
+    let _g = CAP_LOCK.read().unwrap_or_else(|p| p.into_inner());
+    http_serve::verif_hooks::set_read_cap(usize::MAX);
+    let p2 = path.clone();
+    let r = on_rt(move || -> Result<(u64, u64, String, Option<String>), String> {
+        let crf = Crf::new(File::open(&p2).map_err(|e| e.to_string())?, http::HeaderMap::new()).map_err(|e| e.to_string())?;
+        let mut s = crf.get_range(a..b);
+        let w = futures_noop_waker();
+        let mut cx = Context::from_waker(&w);
+        let (mut pos, mut chunks) = (a, 0u64);
+        let mut bad: Option<String> = None;
+        let terminal;
+        loop {
+            match s.as_mut().poll_next(&mut cx) {
+                Poll::Pending => continue,
+                Poll::Ready(None) => {
+                    terminal = "end".to_string();
+                    break;
+                }
+                Poll::Ready(Some(Err(e))) => {
+                    terminal = format!("err:{}", e);
+                    break;
+                }
+                Poll::Ready(Some(Ok(d))) => {
+                    chunks += 1;
+                    if d.is_empty() {
+                        bad.get_or_insert_with(|| format!("empty chunk at offset {}", pos));
+                    }
+                    if bad.is_none() {
+                        for (i, byte) in d.iter().enumerate() {
+                            let off = pos + i as u64;
+                            let want = if off % MARK_EVERY == 0 && off > 0 { (off / MARK_EVERY) as u8 | 1 } else { 0 };
+                            if *byte != want {
+                                bad = Some(format!("byte at file offset {} is {:#x}, expected {:#x}", off, byte, want));
+                                break;
+                            }
+                        }
+                    }
+                    pos += d.len() as u64;
+                    if pos > b + (1 << 20) || chunks > (b - a) + 8 {
+                        terminal = "overrun".to_string();
+                        break;
+                    }
+                }
+            }
+        }
+        Ok((pos - a, chunks, terminal, bad))
+    });
+    match r {
+        Err(p) => (Verdict::viol(format!("panic@{}", norm_loc(&p)), p), None, desc),
+        Ok(Err(e)) => (Verdict::DontCare(format!("setup failed: {}", e)), None, desc),
+        Ok(Ok((got, chunks, terminal, bad))) => {
+            let desc = json!({"case": desc, "observed": {"bytes": got, "chunks": chunks, "terminal": terminal}});
+            if let Some(m) = bad {
+                return (Verdict::viol("wrong-bytes|big-stream", m), None, desc);
+            }
+            if terminal != "end" || got != b - a {
+                return (Verdict::viol(format!("big-stream-{}", terminal.split(':').next().unwrap_or("")), format!("streaming {}..{} of an intact {}-byte file: {} after {} bytes in {} chunks", a, b, size, terminal, got, chunks)), None, desc);
+            }
+            sink.count("big_streams_verified");
+            sink.add("bytes_verified", got);
+            sink.max("max_consecutive_full_reads", chunks);
+            (Verdict::Ok, Some(hash64(&case)), desc)
+        }
+    }
+}
+
 fn etag_ok(e: &[u8]) -> bool {
     e.len() >= 2 && e[0] == b'"' && e[e.len() - 1] == b'"' && e[1..e.len() - 1].iter().all(|c| *c == 0x21 || (0x23..=0x7e).contains(c) || *c >= 0x80)
 }
@@ -407,6 +496,7 @@ fn run_case(c: &FileCase, sink: &mut Sink) {
         FileCase::Read { size, a, b, cap, trunc, via_serve } => run_read(*size, *a, *b, *cap, *trunc, *via_serve, sink),
         FileCase::Meta { size } => run_meta(*size, sink),
         FileCase::NonRegular => run_non_regular(sink),
+        FileCase::BigSparse { size, a, b } => run_big_sparse(*size, *a, *b, sink),
     };
     sink.record(v, nt, &|| desc.clone());
 }
@@ -429,10 +519,10 @@ impl Prop for C18 {
         "fault_enumeration"
     }
     fn rule(&self, ctx: &Ctx) -> String {
-        format!("real temporary files of sizes {:?} (position-hash content) on a multi-thread tokio runtime. Per size: every range with start <= end over {{0, 1, 65535, 65536, 65537, 131071, 131072, size-1, size}} x read cap {{none, 65536, 4097, 1}} (hook: short reads); truncation to {{0, start, start+1, 65535, 65536, end-1}} before poll 0, 1 and 2; the same through serve() with a Range header; metadata/ETag histories (two instances, length +1, mtime +-1ns / +-1s, replacement by a same-size same-mtime copy); construction on a directory, /dev/null and a FIFO. Non-trivial = distinct case judged (bytes compared, or truncation answered by an error within range-length+8 ready polls)", c18_sizes(ctx))
+        format!("real temporary files of sizes {:?} (position-hash content) on a multi-thread tokio runtime. Per size: every range with start <= end over {{0, 1, 65535, 65536, 65537, 131071, 131072, size-1, size}} x read cap {{none, 65536, 4097, 1}} (hook: short reads); truncation to {{0, start, start+1, 65535, 65536, end-1}} before poll 0, 1 and 2; the same through serve() with a Range header; metadata/ETag histories (two instances, length +1, mtime +-1ns / +-1s, replacement by a same-size same-mtime copy); construction on a directory, /dev/null and a FIFO; sparse files of 70 MiB - 2 GiB streamed completely (thousands of consecutive full reads). Non-trivial = distinct case judged (bytes compared, or truncation answered by an error within range-length+8 ready polls)", c18_sizes(ctx))
     }
     fn n_blocks(&self, ctx: &Ctx) -> usize {
-        c18_sizes(ctx).len() * 4 + 1 + if ctx.leg.slow() { 1 } else { 16 }
+        c18_sizes(ctx).len() * 4 + 1 + if ctx.leg.slow() { 1 } else { 16 + 3 }
     }
     fn exhaustive(&self, _: &Ctx) -> bool {
         true
@@ -440,6 +530,13 @@ impl Prop for C18 {
     fn run_block(&self, b: usize, sink: &mut Sink) {
         let ctx = sink.ctx.clone();
         let sizes = c18_sizes(&ctx);
+        if !ctx.leg.slow() && b > sizes.len() * 4 + 16 {
+            // very long streams (hundreds to thousands of consecutive full reads)
+            let k = b - (sizes.len() * 4 + 17);
+            let (size, a, e) = [(300u64 << 20, 0u64, 300u64 << 20), (70 << 20, 12_345, (70 << 20) - 7), (if ctx.tier == Tier::Thorough { 2100 << 20 } else { 520 << 20 }, 1, if ctx.tier == Tier::Thorough { 2100 << 20 } else { 520 << 20 })][k];
+            run_case(&FileCase::BigSparse { size, a, b: e }, sink);
+            return;
+        }
         if b > sizes.len() * 4 {
             // seeded random ranges, caps and truncation points
             let mut rng = crate::util::Rng::from_parts(ctx.seed, &[18, b as u64]);
@@ -521,7 +618,7 @@ impl Prop for C18 {
     }
     fn floors(&self, ctx: &Ctx) -> Vec<(&'static str, u64)> {
         let _ = ctx;
-        vec![("ranges_verified", 500), ("truncation_reported_as_error", 500), ("multi_chunk_streams", 50), ("short_read_injected", 100), ("metadata_and_etag_histories", 3), ("non_regular_refused", 4)]
+        vec![("ranges_verified", 500), ("truncation_reported_as_error", 500), ("multi_chunk_streams", 50), ("short_read_injected", 100), ("metadata_and_etag_histories", 3), ("non_regular_refused", 4), ("big_streams_verified", 3)]
     }
     fn assumptions(&self) -> Vec<String> {
         vec!["not judged: files with pre-epoch modification times, growing files, content changes that leave size and mtime untouched; 'bounded number of polls' = range length + 8 ready polls".into(),
